@@ -47,6 +47,12 @@ pub enum Act {
     Drop,
 }
 
+/// a worker thread that never reaches its next schedule point: the implementation is blocked (reported as a hang)
+fn blocked<T>(why: &str) -> T {
+    eprintln!("blocked: {why}");
+    crate::ctx::blocked()
+}
+
 impl Run {
     pub fn new(w: usize, n: usize) -> Result<Run, String> {
         let sched = Sched::new();
@@ -64,7 +70,7 @@ impl Run {
             f(x)
         });
         let pipe = src.pipe(pipeline, w as u8);
-        sched.wait_quiescent(w).map_err(|d| d.0)?;
+        sched.wait_quiescent(w).unwrap_or_else(|d| blocked(&d.0));
         Ok(Run {
             w,
             n,
@@ -120,7 +126,7 @@ impl Run {
         match a {
             Act::Worker(t) => {
                 let before = self.sched.park_of(*t).ok_or("worker not parked")?;
-                let after: Option<Park> = self.sched.grant(*t, self.w).map_err(|d| d.0)?;
+                let after: Option<Park> = self.sched.grant(*t, self.w).unwrap_or_else(|d| blocked(&d.0));
                 let ev = match before.label {
                     "take" => match &after {
                         Some(p) if p.label == "took" => Ev { code: 0, w: *t as u64, idx: p.idx as u64, flag: 1 },
@@ -217,6 +223,16 @@ fn enc_events(v: &mut Vec<u64>, evs: &[Ev]) {
 pub fn exec(op: &str, a: &[u64]) -> Result<Outcome, String> {
     let mut r = Rd::new(a);
     match op {
+        "pipewalk" => {
+            // replay of a schedule walk the generator was in when the implementation blocked (seeded random walk
+            // under the controlled scheduler); a walk that completes answers "terminates"
+            let (w, n, seed, spin, dropk) = (r.usize()?, r.usize()?, r.nat()?, r.nat()?, r.usize()?);
+            r.end()?;
+            let evs = random_run(w, n, seed, if dropk == 0 { None } else { Some(dropk - 1) }, spin as f64 / 10.0)?;
+            let mut o = Outcome::new("terminates".to_string());
+            o.check(!evs.is_empty() || n == 0 || w == 0 || dropk > 0, "no event in a walk over a non-empty input");
+            Ok(o)
+        }
         "pipetrace" => {
             let w = r.usize()?;
             let n = r.usize()?;
@@ -521,7 +537,10 @@ pub fn run_c05(ctx: &mut Ctx) {
         let n = ctx.rng.random_range(0..=if i % 7 == 0 { 20 } else { 6 });
         let seed = ctx.rng.random();
         let spin_prob = [0.0, 0.1, 0.5][ctx.rng.random_range(0..3)];
-        match random_run(w, n, seed, None, spin_prob) {
+        ctx.guard(format!("pipewalk {w} {n} {seed} {} 0", (spin_prob * 10.0) as u64));
+        let res = random_run(w, n, seed, None, spin_prob);
+        ctx.unguard();
+        match res {
             Ok(evs) => emit_trace(ctx, w, n, &evs),
             Err(e) => {
                 // could not even produce a schedule: report through a request that the exec side will fail on
@@ -534,7 +553,9 @@ pub fn run_c05(ctx: &mut Ctx) {
         // exhaustive DFS over all schedules of small configurations
         let cfgs: &[(usize, usize, usize)] = if ctx.thorough { &[(1, 2, 5000), (2, 1, 20000), (2, 2, 60000), (3, 1, 60000)] } else { &[(1, 2, 300), (2, 1, 600)] };
         for &(w, n, cap) in cfgs {
+            ctx.guard(format!("pipewalk {w} {n} 0 1 0"));
             let (runs, complete) = dfs(ctx, w, n, false, cap);
+            ctx.unguard();
             ctx.count(&format!("dfs:W{w}:n{n}:runs{runs}:complete{complete}"));
         }
     }
@@ -563,7 +584,10 @@ pub fn run_c09(ctx: &mut Ctx) {
         let n = if i % 4 == 0 { 200 } else { ctx.rng.random_range(0..=12) };
         let k = ctx.rng.random_range(0..=20usize.min(n));
         let seed = ctx.rng.random();
-        match random_run(w, n, seed, Some(k), 0.1) {
+        ctx.guard(format!("pipewalk {w} {n} {seed} 1 {}", k + 1));
+        let res = random_run(w, n, seed, Some(k), 0.1);
+        ctx.unguard();
+        match res {
             Ok(evs) => emit_trace(ctx, w, n, &evs),
             Err(e) => {
                 ctx.count(&format!("schedule-error:{e}"));
@@ -574,7 +598,9 @@ pub fn run_c09(ctx: &mut Ctx) {
     if ctx.first_shard() {
         let cfgs: &[(usize, usize, usize)] = if ctx.thorough { &[(1, 2, 20000), (2, 1, 60000), (2, 2, 60000)] } else { &[(1, 1, 300), (2, 1, 600)] };
         for &(w, n, cap) in cfgs {
+            ctx.guard(format!("pipewalk {w} {n} 0 1 1"));
             let (runs, complete) = dfs(ctx, w, n, true, cap);
+            ctx.unguard();
             ctx.count(&format!("dfs-drop:W{w}:n{n}:runs{runs}:complete{complete}"));
         }
     }
